@@ -55,7 +55,11 @@ func genC10(t *rapid.T) c10Case {
 		case k <= 9:
 			op.Kind = "decodeFresh"
 		case k == 10:
-			op.Kind = "scribble"
+			if rapid.Bool().Draw(t, "corrupt") {
+				op.Kind = "decodeCorrupt"
+			} else {
+				op.Kind = "scribble"
+			}
 		default:
 			op.Kind = "remarshal"
 		}
@@ -132,6 +136,29 @@ var c10 = &vh.Prop[c10Case]{
 				}
 				b.data = out
 				x.Label("op:scribble")
+			case "decodeCorrupt":
+				// a failed decode (truncated / damaged input) must not leave anything behind in the
+				// instance's pools or tables; its own result is not examined (C04 covers that)
+				if len(bufs) == 0 {
+					continue
+				}
+				b := bufs[op.A%len(bufs)]
+				if len(b.data) < 2 {
+					continue
+				}
+				bad := append([]byte{}, b.data...)
+				pos := op.B % len(bad)
+				switch op.A % 3 {
+				case 0:
+					bad = bad[:pos]
+				case 1:
+					bad[pos] ^= 0x55
+				default:
+					bad = append(bad[:pos], 0xff, 0xff, 0xff, 0xff, 0x0f)
+				}
+				scratch := reflect.New(c.Types[b.typ].Build())
+				_ = p.Unmarshal(bad, scratch.Interface())
+				x.Label("op:decodeCorrupt")
 			case "newTarget":
 				rv := vh.ToReflect(ts, op.Val)
 				targets = append(targets, c10Target{typ: op.Type, rv: rv, model: vh.FromReflect(ts, rv)})
